@@ -292,7 +292,7 @@ inductive Out
   | unit                            -- returned None
   | pos (z : Int)
   | err (e : Err)
-  deriving Repr
+  deriving Repr, DecidableEq
 
 def outOf {σ α : Type} (k : α → Out) (r : Res σ α) : BF σ × Out :=
   match r with
